@@ -137,14 +137,22 @@ thread_local! {
 }
 
 fn program(deps: &[Vec<usize>]) -> Program {
-    // node i = query i (Normal, sequential reads); the last node is an input nobody reads
+    // node i = query i (Normal, sequential reads); the last node is an input nobody reads.
+    // Cyclic dependency tables (some dependency has an id >= its reader) put all reads into one
+    // item: the family restriction of Program.tla (CycWellFormed) wants every item but the last
+    // to read sources only.
+    let cyclic = deps.iter().enumerate().any(|(i, ds)| ds.iter().any(|d| *d >= i + 1));
     let mut nodes: Vec<Node> = deps
         .iter()
         .enumerate()
         .map(|(i, ds)| Node {
             kind: Kind::Nm,
             init: (i % 3) as i64,
-            code: ds.iter().map(|d| Item { g: 0, gc: 0, mode: 0, deps: vec![*d], w: 1, c: 1 }).collect(),
+            code: if cyclic {
+                if ds.is_empty() { vec![] } else { vec![Item { g: 0, gc: 0, mode: 0, deps: ds.clone(), w: 1, c: 1 }] }
+            } else {
+                ds.iter().map(|d| Item { g: 0, gc: 0, mode: 0, deps: vec![*d], w: 1, c: 1 }).collect()
+            },
             post: 0,
             panic_if: -1,
         })
